@@ -109,7 +109,7 @@ impl Property for C01 {
                             ""
                         } else if sets.st.used_env && case.program.traits.iter().any(|t| t.extra > 0) {
                             ":env-with-trait-params"
-                        } else if sets.st.co_cycle {
+                        } else if sets.st.co_cycle || (program_has_co_cycle(&case.program) && !goal_is_closed(g)) {
                             ":coinductive-cycle"
                         } else {
                             ""
